@@ -1,6 +1,7 @@
 (** extraction of the C18 model: specifications, checkers and as-is models *)
 Require Import FastZ.
 From Dashu Require Import Base.Prelude Float.RoundSpec Ratio.SimplestSpec Ratio.SimplestModel Ratio.SimplestFindings.
+From DashuGen Require Import SimplifyGen.
 Extraction "model.ml"
   freduce flt feq simpler simplest_in_spec simplest_closed
   next_up_check next_down_check nearest_check
@@ -9,4 +10,5 @@ Extraction "model.ml"
   known_ieee known_unlimited known_oddbase known_halfeven known_powbase
   is_simpler_than_asis is_simpler_than_pinned simplest_in_asis simplest_in_pinned_shortcut
   nearest_asis next_up_asis next_down_asis next_up_pinned next_down_pinned
-  simplest_from_ieee_asis simplest_from_ieee_pinned simplest_from_float_asis simplest_from_float_pinned error_bounds_asis fnormalize.
+  simplest_from_ieee_asis simplest_from_ieee_pinned simplest_from_float_asis simplest_from_float_pinned simplest_from_float_r2 error_bounds_asis fnormalize
+  is_simpler_than_gen.
